@@ -54,10 +54,23 @@ Proof.
   - destruct (acc_ok G h tbl a0); [apply IH|reflexivity].
 Qed.
 
-Lemma run_releases stack outer : run G rk (stack ++ outer) (releases stack) = Some outer.
+Lemma holds_app m (a b : hset) : holds m a = true -> holds m (a ++ b) = true.
+Proof. unfold holds. rewrite existsb_app. intros ->. reflexivity. Qed.
+
+Lemma remove_first_app m (a b : hset) : holds m a = true -> remove_first m (a ++ b) = remove_first m a ++ b.
 Proof.
-  induction stack as [|p stack IH]; [reflexivity|].
-  cbn [releases map app run holds existsb remove_first]. rewrite String.eqb_refl. cbn [orb]. exact IH.
+  induction a as [|p a IH]; cbn; [discriminate|].
+  destruct (String.eqb (fst p) m); cbn; [reflexivity|]. intros H. now rewrite IH.
+Qed.
+
+(* the deferred unlocks of a return, in the context of the callers' locks *)
+Lemma run_releases ds acq r outer :
+  release_all ds acq = Some r -> run G rk (acq ++ outer) (releases ds) = Some (r ++ outer).
+Proof.
+  revert acq. induction ds as [|m ds IH]; intros acq; cbn [release_all releases map run].
+  - intros H. injection H as <-. reflexivity.
+  - destruct (holds m acq) eqn:Hh; [|discriminate]. intros H.
+    rewrite (holds_app m acq outer Hh), (remove_first_app m acq outer Hh). exact (IH _ H).
 Qed.
 
 Lemma facts_S fuel cur h body :
@@ -65,38 +78,60 @@ Lemma facts_S fuel cur h body :
   facts_stmts (fun h' g => match lookup_method g ms with
                            | Some gb => facts fuel ms g h' gb
                            | None => [FErr cur ("unknown-callee-" ++ g)%string]
-                           end) cur h body.
+                           end) cur [] h [] body.
 Proof. reflexivity. Qed.
 
-Lemma bpath_run stack body p :
-  bpath ms stack body p ->
-  forall fuel cur outer,
-    forallb (fact_ok G rk) (facts fuel ms cur (stack ++ outer) body) = true ->
-    run G rk (stack ++ outer) p = Some outer.
+Lemma ret_ok_run cur acq ds outer :
+  fact_ok G rk (FRet cur acq ds) = true -> run G rk (acq ++ outer) (releases ds) = Some outer.
 Proof.
-  induction 1 as [stack body | stack m md rest0 p Hp IH | stack its rest0 p Hp IH
-                 | stack its rest0 t a p Hin Hp IH | stack its rest0 f fb q p Hin Hl Hq IHq Hp IH];
-    intros fuel cur outer Hok.
-  - apply run_releases.
-  - destruct fuel as [|fuel]; [discriminate|].
-    rewrite facts_S in Hok. cbn [facts_stmts forallb fact_ok] in Hok.
-    apply andb_true_iff in Hok as [Hacq Hrest].
-    cbn [run]. rewrite Hacq. apply (IH (S fuel) cur outer). rewrite facts_S. exact Hrest.
-  - destruct fuel as [|fuel]; [discriminate|].
-    rewrite facts_S in Hok. cbn [facts_stmts] in Hok. rewrite forallb_app in Hok.
-    apply andb_true_iff in Hok as [_ Hrest].
-    apply (IH (S fuel) cur outer). rewrite facts_S. exact Hrest.
-  - destruct fuel as [|fuel]; [discriminate|].
-    pose proof Hok as Hok'. rewrite facts_S in Hok'. cbn [facts_stmts] in Hok'. rewrite forallb_app in Hok'.
-    apply andb_true_iff in Hok' as [Hits _]. rewrite forallb_flat_map in Hits.
-    pose proof (forallb_In _ _ _ Hits Hin) as Ha. cbn in Ha. rewrite andb_true_r in Ha.
-    cbn [run]. rewrite Ha. apply (IH (S fuel) cur outer Hok).
-  - destruct fuel as [|fuel]; [discriminate|].
-    pose proof Hok as Hok'. rewrite facts_S in Hok'. cbn [facts_stmts] in Hok'. rewrite forallb_app in Hok'.
-    apply andb_true_iff in Hok' as [Hits _]. rewrite forallb_flat_map in Hits.
-    pose proof (forallb_In _ _ _ Hits Hin) as Hc. cbn beta iota in Hc. rewrite Hl in Hc.
-    pose proof (IHq fuel f (stack ++ outer) Hc) as Hq'. cbn [app] in Hq'.
-    rewrite run_app, Hq'. apply (IH (S fuel) cur outer Hok).
+  cbn [fact_ok]. destruct (release_all ds acq) as [[|p r]|] eqn:E; try discriminate.
+  intros _. exact (run_releases ds acq [] outer E).
+Qed.
+
+(* general form: the method has acquired [acq] so far, its callers hold [outer] *)
+Lemma bpath_run_gen callf ds body p :
+  bpath ms ds body p ->
+  (forall h g gb q, lookup_method g ms = Some gb -> bpath ms [] gb q ->
+     forallb (fact_ok G rk) (callf h g) = true -> run G rk h q = Some h) ->
+  (forall h g, lookup_method g ms = None -> forallb (fact_ok G rk) (callf h g) = false) ->
+  forall cur acq outer,
+    forallb (fact_ok G rk) (facts_stmts callf cur acq outer ds body) = true ->
+    run G rk (acq ++ outer) p = Some outer.
+Proof.
+  intros Hp Hcall Hnone.
+  induction Hp as [ds | ds rest0 | ds rest0 p Hp IH | ds m md rest0 p Hp IH | ds m md rest0 p Hp IH
+                  | ds m rest0 p Hp IH | ds its rest0 p Hp IH
+                  | ds its rest0 t a p Hin Hp IH | ds its rest0 f fb q p Hin Hl Hq _ Hp IH];
+    intros cur acq outer Hok; cbn [facts_stmts forallb] in Hok.
+  - apply andb_true_iff in Hok as [Hr _]. exact (ret_ok_run cur acq ds outer Hr).
+  - apply andb_true_iff in Hok as [Hr _]. exact (ret_ok_run cur acq ds outer Hr).
+  - apply andb_true_iff in Hok as [_ Hrest]. exact (IH cur acq outer Hrest).
+  - apply andb_true_iff in Hok as [Hacq Hrest]. cbn [fact_ok] in Hacq.
+    cbn [run]. rewrite Hacq. exact (IH cur ((m, md) :: acq) outer Hrest).
+  - apply andb_true_iff in Hok as [Hacq Hrest]. cbn [fact_ok] in Hacq.
+    cbn [run]. rewrite Hacq. exact (IH cur ((m, md) :: acq) outer Hrest).
+  - apply andb_true_iff in Hok as [Hrel Hrest]. cbn [fact_ok] in Hrel.
+    cbn [run]. rewrite (holds_app m acq outer Hrel), (remove_first_app m acq outer Hrel).
+    exact (IH cur (remove_first m acq) outer Hrest).
+  - rewrite forallb_app in Hok. apply andb_true_iff in Hok as [_ Hrest]. exact (IH cur acq outer Hrest).
+  - pose proof Hok as Hok'. rewrite forallb_app in Hok'. apply andb_true_iff in Hok' as [Hits _].
+    rewrite forallb_flat_map in Hits. pose proof (forallb_In _ _ _ Hits Hin) as Ha. cbn in Ha. rewrite andb_true_r in Ha.
+    cbn [run]. rewrite Ha. exact (IH cur acq outer Hok).
+  - pose proof Hok as Hok'. rewrite forallb_app in Hok'. apply andb_true_iff in Hok' as [Hits _].
+    rewrite forallb_flat_map in Hits. pose proof (forallb_In _ _ _ Hits Hin) as Hc. cbn beta iota in Hc.
+    rewrite run_app, (Hcall (acq ++ outer) f fb q Hl Hq Hc). exact (IH cur acq outer Hok).
+Qed.
+
+Lemma bpath_run fuel : forall body p cur outer,
+  bpath ms [] body p ->
+  forallb (fact_ok G rk) (facts fuel ms cur outer body) = true ->
+  run G rk outer p = Some outer.
+Proof.
+  induction fuel as [|fuel IHf]; intros body p cur outer Hp Hok; [discriminate|].
+  rewrite facts_S in Hok.
+  refine (bpath_run_gen _ [] body p Hp _ _ cur [] outer Hok).
+  - intros h g gb q Hl Hq Hc. rewrite Hl in Hc. exact (IHf gb q g h Hq Hc).
+  - intros h g Hl. rewrite Hl. reflexivity.
 Qed.
 
 Lemma mpath_run f p :
@@ -105,7 +140,7 @@ Proof.
   intros Hok [fb [Hl Hp]]. destruct (lookup_method_In _ _ _ Hl) as [m [Hi [Hn Hb]]]. subst.
   unfold all_facts in Hok. rewrite forallb_flat_map in Hok.
   pose proof (forallb_In _ _ _ Hok Hi) as Hm.
-  exact (bpath_run [] (m_body m) p Hp (depth ms) (m_name m) [] Hm).
+  exact (bpath_run (depth ms) (m_body m) p (m_name m) [] Hp Hm).
 Qed.
 
 Lemma tpath_run p :
@@ -143,8 +178,9 @@ Proof.
   - intros H. apply app_eq_nil in H as [H1 H2]. destruct (names_unique ms); [|discriminate]. cbn.
     apply fold_add_new_nil in H2 as [_ H2]. apply forallb_forall. intros f Hf.
     specialize (H2 f Hf). unfold fact_tag in H2.
-    destruct (fact_ok _ _ f); [reflexivity|]. destruct f; [discriminate| |discriminate].
-    destruct (holds m h); discriminate.
+    destruct (fact_ok _ _ f); [reflexivity|]. destruct f; try discriminate.
+    + destruct (holds m h); discriminate.
+    + destruct (release_all ds acq) as [[|? ?]|]; discriminate.
   - intros H. apply andb_true_iff in H as [H1 H2]. rewrite H1. cbn.
     rewrite forallb_forall in H2.
     assert (E : forall l acc, (forall f, In f l -> In f (all_facts ms)) ->
